@@ -658,7 +658,8 @@ def update2 (f : List α → α) (w : W α) (params : PList α) : W α × Option
     | (fn, some e) => ({ w with fn := fn }, some e)
     | (fn, none) =>
       let w := { w with fn := fn, f1 := fn.fval }
-      if tooBig w.f1 then (nanAll w, none) else
+      -- Two:20-31: NaN everywhere, analytical derivatives of the wrapped function switched back on
+      if tooBig w.f1 then (nanAll { w with fn := w.fn.enable1 w.c1 }, none) else
       match loopGo (step2 f params) w.vars 0 { w := w, p := [], lastVar := none } with
       | (lp, some e) => (lp.w, some e)
       | (lp, none) => finish f params lp.lastVar false lp.w
@@ -677,7 +678,8 @@ def update3 (f : List α → α) (w : W α) (params : PList α) : W α × Option
     | (fn, some e) => ({ w with fn := fn }, some e)
     | (fn, none) =>
       let w := { w with fn := fn, f2 := fn.fval }
-      if tooBig w.f2 then (nanAll w, none) else
+      -- Three:20-33: NaN everywhere, analytical derivatives of the wrapped function switched back on
+      if tooBig w.f2 then (nanAll { w with fn := (w.fn.enable1 w.c1).enable2 w.c2 }, none) else
       match loopGo (step3 f params) w.vars 0 { w := w, p := [], lastVar := none } with
       | (lp, some e) => (lp.w, some e)
       | (lp, none) =>
